@@ -6,7 +6,7 @@ res = json.load(open(os.path.join(V, "seeded", "RESULTS.json")))
 rows = ["Each change was produced by an independent agent that saw only the property text and a scratch worktree of /repo; it compiles,",
         "passes the existing test suite and comes with a demonstration (`seeded/<id>/seeded_demo_test.go`) that fails with the change and",
         "passes without it - all three confirmed in a scratch worktree by `tools/seeded.py confirm` (`seeded/<id>/verification.json`).",
-        "The checks were then run against a scratch worktree of /repo with the patch applied, from a scratch copy of /verif (`tools/regress.py seeded`; last full run after round e, round f after its strengthening).",
+        "The checks were then run against a scratch worktree of /repo with the patch applied, from a scratch copy of /verif (`tools/regress.py seeded`; last full run on the final tree, /repo at f1ffa92).",
         "\"replay\" = a concrete failing input / history / schedule is reported; \"tie\" = only the broken proof obligation or",
         "correspondence is reported (`no-failing-input-found`).", "",
         "| change | site | what breaks | checks run: outcome |", "|---|---|---|---|"]
